@@ -40,9 +40,9 @@ type vC13Case struct {
 	base    int64
 	running int
 	subs    []*vC13Sub
-	rec   []vM
-	viol  string
-	group string
+	rec     []vM
+	viol    string
+	group   string
 }
 
 func (c *vC13Case) observe() {
